@@ -21,7 +21,7 @@ type c14 struct{}
 
 func init() { register(c14{}) }
 
-var c14Variants = [][]string{{"go"}, {"go", "-u"}, {"go", "-o"}, {"go", "-o", "-u"}, {"typescript"}}
+var c14Variants = [][]string{{"go"}, {"go", "-u"}, {"go", "-o"}, {"go", "-o", "-u"}, {"typescript"}, {"go", "-d"}}
 
 func (c14) ID() string { return "C14" }
 func (c14) grammars(tier string) int {
@@ -38,7 +38,7 @@ func (c14) runs(tier string) (cli, inproc int) {
 	return 8, 60
 }
 func (c14) Rule() string {
-	return "case = (grammar, option set) with option sets go, go -u, go -o, go -o -u, typescript; the real CLI is run R times in separate processes (quick 8, thorough 30) and the generator is run N more times in-process (quick 60, thorough 200) on the same file; Go re-randomises map iteration on every range statement, which plays the role of the schedule; all output files are hashed and the number of distinct outputs must be 1; grammars have many symbols, tied row frequencies and states with several successors so that an order dependence shows up with high probability per run; non-trivial = case whose grammar has >= 6 symbols and >= 6 states; distinct by (grammar text, option set)"
+	return "case = (grammar, option set) with option sets go, go -u, go -o, go -o -u, typescript, go -d (http debug code); the real CLI is run R times in separate processes (quick 8, thorough 30) and the generator is run N more times in-process (quick 60, thorough 200) on the same file; Go re-randomises map iteration on every range statement, which plays the role of the schedule; all output files are hashed and the number of distinct outputs must be 1; grammars have many symbols, tied row frequencies and states with several successors so that an order dependence shows up with high probability per run; non-trivial = case whose grammar has >= 6 symbols and >= 6 states; distinct by (grammar text, option set)"
 }
 func (c14) Assumptions() []string {
 	return []string{"stdout of the generator (conflict warnings, debug listing) is not an output file and is not compared", "held on the runs observed: a dependence that flips with probability p per run is missed with probability (1-p)^(runs-1)"}
@@ -199,6 +199,9 @@ func (p c14) Run(seed int64, tier string, idx int) Outcome {
 				if f == "-o" {
 					utils.ObjectMode = true
 				}
+				if f == "-d" {
+					utils.HttpDebug = true
+				}
 			}
 			if variant[0] == "go" {
 				err = builder.TemplateGenFromString(text, out)
@@ -206,7 +209,7 @@ func (p c14) Run(seed int64, tier string, idx int) Outcome {
 				err = builder.TsGenFromString(text, out)
 			}
 		})
-		utils.PackFlags, utils.ObjectMode = true, false
+		utils.PackFlags, utils.ObjectMode, utils.HttpDebug = true, false, false
 		if err != nil || pan != nil {
 			o.Status = "inconclusive"
 			o.Detail = fmt.Sprintf("in-process generation failed: %v %v", err, pan)
